@@ -23,6 +23,7 @@ type worker struct {
 	in  *os.File
 	out *bufio.Reader
 	ch  chan []byte
+	tmp string // the worker's own temporary directory (its embedded etcd lives there): removed when the worker is killed
 }
 
 func startWorker(kind string) (*worker, error) {
@@ -39,7 +40,11 @@ func startWorker(kind string) (*worker, error) {
 		cmd.Path = exe
 		cmd.Args[0] = exe
 	}
-	cmd.Env = append(os.Environ(), "VERIF_WORKER="+kind)
+	tmp, err := os.MkdirTemp("", "verif-worker-")
+	if err != nil {
+		return nil, err
+	}
+	cmd.Env = append(os.Environ(), "VERIF_WORKER="+kind, "TMPDIR="+tmp)
 	cmd.ExtraFiles = []*os.File{inR, outW}
 	cmd.Stdout = nil
 	cmd.Stderr = nil
@@ -51,7 +56,7 @@ func startWorker(kind string) (*worker, error) {
 	}
 	inR.Close()
 	outW.Close()
-	w := &worker{cmd: cmd, in: inW, out: bufio.NewReaderSize(outR, 1<<20), ch: make(chan []byte, 1)}
+	w := &worker{cmd: cmd, in: inW, out: bufio.NewReaderSize(outR, 1<<20), ch: make(chan []byte, 1), tmp: tmp}
 	go func() {
 		for {
 			line, err := w.out.ReadBytes('\n')
@@ -82,6 +87,9 @@ func (w *worker) kill() {
 	}
 	w.in.Close()
 	w.cmd.Wait()
+	if w.tmp != "" {
+		os.RemoveAll(w.tmp)
+	}
 }
 
 // call sends one case; returns (reply, "") or (nil, "timeout"|"died").
